@@ -25,8 +25,9 @@ CONSTANTS
     ArgMode,     \* "occurrence" | "last"
     EmitOn
 
-VARIABLES tpl, nl, maps, tgt, ci, ri, req, stage
-vars == <<tpl, nl, maps, tgt, ci, ri, req, stage>>
+VARIABLES tpl, nl, maps, tgt, ci, ri, req, stage,
+          sc      \* the finished case with everything the definition predicts for it (filled in once, by the last step)
+vars == <<tpl, nl, maps, tgt, ci, ri, req, stage, sc>>
 
 Empty == [n \in {} |-> 0]
 Rx(name, subs, prods, args, mapped) ==
@@ -87,6 +88,7 @@ Init ==
     /\ tpl \in Tpls
     /\ nl = Empty /\ maps = Empty /\ tgt = 0 /\ ci = 1 /\ ri = 0 /\ req = Empty
     /\ stage = "nl"
+    /\ sc = <<>>
 
 PickNL ==
     /\ stage = "nl"
@@ -97,7 +99,7 @@ PickNL ==
        ELSE /\ ri' = NextMapped(0)
             /\ stage' = "len"
             /\ UNCHANGED <<nl, ci>>
-    /\ UNCHANGED <<tpl, maps, tgt, req>>
+    /\ UNCHANGED <<tpl, maps, tgt, req, sc>>
 
 PickLen ==
     /\ stage = "len"
@@ -107,7 +109,7 @@ PickLen ==
                 tgt' = len
     /\ maps' = maps @@ (ri :> <<>>)
     /\ stage' = "map"
-    /\ UNCHANGED <<tpl, nl, ci, ri, req>>
+    /\ UNCHANGED <<tpl, nl, ci, ri, req, sc>>
 
 PickEntry ==
     /\ stage = "map"
@@ -118,7 +120,7 @@ PickEntry ==
                THEN ri' = NextMapped(ri) /\ stage' = "len" /\ ci' = ci
                ELSE ri' = ri /\ stage' = "req" /\ ci' = 1
             /\ UNCHANGED maps
-    /\ UNCHANGED <<tpl, nl, tgt, req>>
+    /\ UNCHANGED <<tpl, nl, tgt, req, sc>>
 
 \* every way to ask for initial label on a compound with n positions
 ReqMenu(n) ==
@@ -127,23 +129,6 @@ ReqMenu(n) ==
     \o SetToSeq({[k |-> "list", ps |-> SetToSortSeq(S, <)] : S \in SUBSET (0..(n - 1))})
 
 Salt == SumSeq([j \in 1..Len(T.rxns) |-> IF j \in DOMAIN maps THEN SumSeq(maps[j]) + Len(maps[j]) ELSE 0])
-
-PickReq ==
-    /\ stage = "req"
-    /\ IF ci <= Len(T.lab)
-       THEN LET c == T.lab[ci]
-                menu == ReqMenu(nl[c])
-            IN /\ IF InitAll
-                  THEN \E q \in 1..Len(menu) : req' = req @@ (c :> menu[q])
-                  ELSE req' = req @@ (c :> menu[((Salt + 3 * ci) % Len(menu)) + 1])
-               /\ ci' = ci + 1
-               /\ UNCHANGED stage
-       ELSE /\ stage' = "done"
-            /\ UNCHANGED <<req, ci>>
-    /\ UNCHANGED <<tpl, nl, maps, tgt, ri>>
-
-Next == PickNL \/ PickLen \/ PickEntry \/ PickReq
-Done == stage = "done"
 
 (***************************************************************************)
 (* Integer isotopomer states                                               *)
@@ -158,33 +143,55 @@ PointVal(k, i) ==
       [] k = 2 -> (5 * i + 1) % 11
       [] k = 3 -> IF i % 3 = 1 THEN 0 ELSE (i % 5) + 1
       [] k = 4 -> 1
-Point(b, k) == [n \in IsoNames(b) |-> PointVal(k, Idx(b, CHOOSE rec \in IsoIndex(b) : rec.n = n))]
+Point(b, k) == LET idx == IsoIndex(b) IN [n \in {rec.n : rec \in idx} |-> PointVal(k, Idx(b, CHOOSE rec \in idx : rec.n = n))]
 
-BB == Content
-Req == [c \in CpdSet(BB) |-> IF c \in DOMAIN req THEN req[c] ELSE [k |-> "none", ps |-> <<>>]]
-Ok == Done /\ Outcome(BB) = "ok" /\ AllProper(BB)
+NoReq == [k |-> "none", ps |-> <<>>]
 
-Scenario ==
-    IF Ok
-    THEN [tpl |-> tpl, b |-> BB, req |-> req, outcome |-> "ok",
-          rxns |-> LabelledRxns(BB, "occurrence"),
-          init |-> LInit(BB, Req),
-          pts  |-> [k \in 1..NPts |->
-                      LET y == Point(BB, k) IN
-                      [y |-> y, dy |-> LRhs(BB, y, "occurrence"),
-                       tot |-> Totals(BB, y), base |-> BRhs(BB, Totals(BB, y))]]]
-    ELSE [tpl |-> tpl, b |-> BB, req |-> req, outcome |-> Outcome(BB)]
+\* everything the definition says about the finished case, computed once
+Compute(rq) ==
+    LET b == Content
+    IN IF Outcome(b) = "ok" /\ AllProper(b)
+       THEN [ok |-> TRUE, tpl |-> tpl, b |-> b, req |-> rq, outcome |-> "ok",
+             rxns |-> LabelledRxns(b, "occurrence"),
+             init |-> LInit(b, [c \in CpdSet(b) |-> IF c \in DOMAIN rq THEN rq[c] ELSE NoReq]),
+             pts  |-> [k \in 1..NPts |->
+                         LET y  == Point(b, k)
+                             tt == Totals(b, y)
+                         IN [y |-> y, dy |-> LRhs(b, y, ArgMode), tot |-> tt, base |-> BRhs(b, tt)]]]
+       ELSE [ok |-> FALSE, tpl |-> tpl, b |-> b, req |-> rq, outcome |-> Outcome(b)]
 
-Emit == (EmitOn /\ Done) => PrintT("@J@" \o ToJson(Scenario) \o "@E@")
+PickReq ==
+    /\ stage = "req"
+    /\ IF ci <= Len(T.lab)
+       THEN LET c == T.lab[ci]
+                menu == ReqMenu(nl[c])
+            IN /\ IF InitAll
+                  THEN \E q \in 1..Len(menu) : req' = req @@ (c :> menu[q])
+                  ELSE req' = req @@ (c :> menu[((Salt + 3 * ci) % Len(menu)) + 1])
+               /\ ci' = ci + 1
+               /\ UNCHANGED <<stage, sc>>
+       ELSE /\ stage' = "done"
+            /\ sc' = Compute(req)
+            /\ UNCHANGED <<req, ci>>
+    /\ UNCHANGED <<tpl, nl, maps, tgt, ri>>
+
+Next == PickNL \/ PickLen \/ PickEntry \/ PickReq
+Done == stage = "done"
+Ok == Done /\ sc.ok
+
+Emit == (EmitOn /\ Done) => PrintT("@J@" \o ToJson(sc) \o "@E@")
 
 (***************************************************************************)
 (* Theorems                                                                *)
 (***************************************************************************)
-ThCount == Ok => CountRule(BB, ArgMode)
-ThUnit  == Ok => UnitRule(BB, ArgMode)
-ThAtom  == Ok => AtomRule(BB)
-ThSum   == Ok => \A k \in 1..NPts : SumRule(BB, Point(BB, k), ArgMode)
-ThInit  == Ok => InitRule(BB, Req)
+ThCount == Ok => CountRule(sc.b, ArgMode)
+ThUnit  == Ok => UnitRule(sc.b, ArgMode)
+ThAtom  == Ok => AtomRule(sc.b)
+\* the isotopomers of a compound together move like the base compound at the totals (SumRule, on the stored values)
+ThSum   == Ok => LET idx == IsoIndex(sc.b)
+                 IN \A k \in 1..NPts : \A c \in CpdSet(sc.b) : TotalOfI(idx, sc.pts[k].dy, c) = sc.pts[k].base[c]
+\* placement keeps the amount of every compound (InitRule, on the stored values)
+ThInit  == Ok => LET idx == IsoIndex(sc.b) IN \A c \in CpdSet(sc.b) : TotalOfI(idx, sc.init, c) = sc.b.init[c]
 \* rejection is decided by the length of the map alone
-ThReject == Done => ((Outcome(BB) = "rejected") <=> (\E j \in MappedIdx : Len(maps[j]) < SLab(BB, BB.rxns[j])))
+ThReject == Done => ((sc.outcome = "rejected") <=> (\E j \in MappedIdx : Len(maps[j]) < SLab(sc.b, sc.b.rxns[j])))
 =============================================================================
